@@ -189,18 +189,53 @@ class Observer:
             rec["n"] = n
             self.calls.append(rec)
             cyc = _cycle.get()
+            # kopf's own id of the handler being invoked (differs from the scenario id for field handlers:
+            # "f0" -> "f0/spec.x", and so for their sub-handlers) — additive keys `hid`/`call`
+            real_id = None
+            try:
+                from kopf._core.actions import execution as _execution
+                real_id = str(_execution.handler_var.get().id)
+            except Exception:  # noqa: BLE001
+                real_id = None
+            if real_id is not None:
+                rec["hid"] = real_id
             if cyc is not None and h["kind"] in ("create", "update", "delete", "resume", "field", "sub"):
-                cyc["invoked"].append({"id": h["id"], "retry": rec["retry"]})
+                cyc["invoked"].append({"id": h["id"], "retry": rec["retry"], "hid": real_id or h["id"],
+                                       "call": len(self.calls) - 1})
             elif cyc is not None and h["kind"] == "event":
                 cyc.setdefault("events_invoked", []).append(h["id"])
             if subs and (action == "ok" or action == ["ok"]):
                 import kopf
+                # how the parent registers its sub-handlers: "execute" (default: `kopf.execute(fns={id: fn})`),
+                # "decorator" (`@kopf.subhandler(id=…)` inside the parent, run implicitly when it returns),
+                # "register" (`kopf.register(fn, id=…)`, likewise implicit), "decorator_execute" (decorators, then
+                # an explicit argument-less `kopf.execute()`)
+                mode = h.get("sub_mode", "execute")
                 fns = {}
                 for s in subs:
                     sh = {"kind": "sub", "id": f"{h['id']}/{s['id']}", "script": s.get("script", []), "default": s.get("default", "ok")}
                     fns[s["id"]] = self._make_plain(sh)
+                if cyc is not None:
+                    # what the parent registered in this invocation (independent of what kopf then selects)
+                    cyc.setdefault("sub_registered", []).append({
+                        "parent": h["id"], "parent_hid": real_id or h["id"], "mode": mode, "t": self.sim.now(),
+                        "call": len(self.calls) - 1, "subs": [s["id"] for s in subs]})
                 rec["outcome"] = "subhandlers"
-                await kopf.execute(fns=fns)
+                rec["sub_mode"] = mode
+                if mode == "execute":
+                    await kopf.execute(fns=fns)
+                elif mode in ("decorator", "decorator_execute"):
+                    for sid, sfn in fns.items():
+                        kopf.subhandler(id=sid)(sfn)
+                    if mode == "decorator_execute":
+                        await kopf.execute()
+                elif mode == "register":
+                    for sid, sfn in fns.items():
+                        kopf.register(sfn, id=sid)
+                else:
+                    raise RuntimeError(f"unknown sub_mode {mode!r}")
+                # (with the implicit modes the sub-handlers run after this function returns: a children-retry
+                # then surfaces in kopf, not here; the call record keeps "ok" = the parent's own function)
                 rec["outcome"] = "ok"
                 rec["t_end"] = self.sim.now()
                 return None
